@@ -378,7 +378,7 @@ func runC05(c *h.Ctx) {
 	// (b) the generic random workload through all five entry points
 	eg := NewExecGen(c.Rand("c05"))
 	eg.G.C.Datetime = true
-	n := c.PerShard(c.N(60000, 2000000))
+	n := c.PerShard(c.N(400000, 4000000))
 	for i := 0; i < n; i++ {
 		ec := eg.Next()
 		doc := ec.DocValue()
